@@ -45,8 +45,59 @@ def valuations():
     ]
 
 
+class AnyEq:
+    """Compares equal to everything (like unittest.mock.ANY)."""
+    def __eq__(self, other): return True
+    def __ne__(self, other): return False
+    def __hash__(self): return 1
+    def __repr__(self): return "AnyEq()"
+
+
+class NoTruth:
+    """The result of an element-wise comparison: it has no truth value."""
+    def __bool__(self): raise ValueError("The truth value is ambiguous")
+    def __repr__(self): return "NoTruth()"
+
+
+class Elementwise:
+    """Compares element-wise (like a numpy array): == gives an object without a truth value."""
+    def __eq__(self, other): return NoTruth()
+    def __ne__(self, other): return NoTruth()
+    def __hash__(self): return 2
+    def __repr__(self): return "Elementwise()"
+
+
+class NeverEq:
+    """Not even equal to itself."""
+    def __eq__(self, other): return False
+    def __ne__(self, other): return True
+    def __hash__(self): return 3
+    def __repr__(self): return "NeverEq()"
+
+
+def exotic_valuations():
+    """Valuations 4..7: the int parameters (and list elements) hold legal objects with unusual __eq__ / truth."""
+    base = valuations()[1]
+    nan = float("nan")
+    out = []
+    for x, y, xs in ((AnyEq(), 0, [1, 2]), (Elementwise(), 0, [Elementwise()]), (NeverEq(), AnyEq(), [NeverEq(), 1]), (nan, 0, [nan])):
+        v = dict(base)
+        v.update({"x": x, "y": y, "xs": xs, "o": Obj(x, [x])})
+        out.append(v)
+    return out
+
+
 GLOBALS_SRC = "G = 7\nGL = [4, 0]\nx = 100\nxs = [9, 9]\nC = 50\nCL = [7, 7, 7]\nclass _Imp:\n    def __repr__(self):\n        return 'IMPOSSIBLE'\nIMPOSSIBLE = _Imp()\ndef ident(v):\n    return v\ndef add(a, b=0, *rest, k=0):\n    return a + b + sum(rest) + k\n"
 CLOSURE = {"C": 5, "CL": [1]}
+# parameters of the *condition* that the decorated function does not have: the condition's own default applies
+OWN_DEFAULTS = {"kd": 0}
+OWN_DEFAULT_FRAMES = ["({0}) and kd > 5", "kd > 5 or ident({0})", "kd < 1 and ({0}) and kd > 5"]
+
+
+def own_default_params(text):
+    tree = ast.parse(text, mode="eval")
+    used = {n.id for n in ast.walk(tree) if isinstance(n, ast.Name)}
+    return ["{}={!r}".format(k, v) for k, v in OWN_DEFAULTS.items() if k in used]
 
 # ---------------------------------------------------------------------------------------------
 # grammar
